@@ -2523,6 +2523,11 @@ def parse_config(bindings, skip_unknown=False):
               if not skip_unknown:
                 raise
               _print_unknown_import_message(statement, e)
+            except SyntaxError as e:
+              # The imported module's own syntax error names that module's
+              # file, not the import statement (or the includes) leading to it.
+              e.gin_location_missing = True
+              raise
         elif isinstance(statement, config_parser.IncludeStatement):
           with utils.try_with_location(statement.location):
             nested_includes = parse_config_file(statement.filename, skip_unknown)
